@@ -415,18 +415,22 @@ func codecPairsRule(P *Program, R *Report) {
 					okM = desc(c.Common().Args[0]) == "call:"+recv+".compress(<revocation."+typ.t+">)"
 				}
 			}
-			for _, c := range callsIn(uf) {
-				if isCallTo(c, enc.uf) {
-					okU = desc(c.Common().Args[1]) == "new:revocation."+typ.inter
+			// (in the decoder itself or in a helper shared by the JSON and CBOR decoders that is handed the library
+			// decoder as a function value)
+			deepVisit(P, uf, 1, func(g *ssa.Function) {
+				for _, c := range callsIn(g) {
+					if isCallTo(c, enc.uf) {
+						okU = desc(c.Common().Args[1]) == "new:revocation."+typ.inter
+					}
+					if isCallTo(c, recv+".uncompress") {
+						okUn = desc(c.Common().Args[1]) == "new:revocation."+typ.inter
+					}
 				}
-				if isCallTo(c, recv+".uncompress") {
-					okUn = desc(c.Common().Args[1]) == "new:revocation."+typ.inter
-				}
-			}
+			})
 			R.decide(rule, recv+"."+enc.m+"/"+enc.u, "both directions use the same intermediate type "+typ.inter+" through compress/uncompress", okM && okU && okUn, fmt.Sprintf("marshal=%v unmarshal=%v uncompress=%v", okM, okU, okUn), P.Pos(mf.Pos()))
 			mp(P, R, rule, recv+"."+enc.u+":error", "a decoding error is returned, not swallowed", uf, AcceptNilErr(0), &MustPass{Match: func(a Atom) bool {
 				c, _ := callAndResult(a.V)
-				return c != nil && calleeName(c) == enc.uf && a.Want == Nil
+				return c != nil && calleeIs(c, enc.uf) && a.Want == Nil
 			}})
 		}
 		// field sets
